@@ -54,6 +54,10 @@ ORIGINS = [
     ('early-listener', 'negotiate'),
     ('reaction-status-empty', 'negotiate'),
     ('reaction-status-json', 'negotiate'),
+    # the status connection ends without an answer (not fatal: fallback to
+    # the default version) and the TCP connect of that fallback is refused:
+    # the error comes out of the reactor's own exception hook
+    ('fallback-connect-refused', 'negotiate'),
 ]
 FINALS = ['none', 'false', 'return', 'raise:A', 'raise:C']
 ENUM_HANDLERS = [
@@ -187,6 +191,9 @@ def build_server(sc):
         first['status'] = {'mode': 'reply', 'json': '{not json'}
     elif origin == 'reaction-status-empty':
         first['status'] = {'mode': 'reply', 'json': '{}'}
+    elif origin == 'fallback-connect-refused':
+        first['status'] = {'mode': 'close_on_request'}
+        sc['net']['refuse'] = [1]
     elif origin.startswith('decoder:'):
         kind = origin.split(':')[1]
         if kind in ('corrupt-zlib', 'wrong-inflated-size'):
@@ -510,7 +517,7 @@ def check(scenario, w, st, res, ids):
         e0 = 'LoginDisconnect'
     elif origin == 'reaction-status-json':
         e0 = 'ValueError'
-    elif origin == 'reaction-status-empty':
+    elif origin in ('reaction-status-empty', 'fallback-connect-refused'):
         e0 = 'OSError'
     else:
         e0 = 'unknown'
@@ -538,7 +545,7 @@ def check(scenario, w, st, res, ids):
         return None if e is None else 'unlabelled:%s' % type(e).__name__
     raised = first.exc
     if origin in ('reaction-login-disconnect', 'reaction-status-json',
-                  'reaction-status-empty') or \
+                  'reaction-status-empty', 'fallback-connect-refused') or \
             origin.startswith('decoder:'):
         # E0 was created inside pyCraft: label it by position
         if st['objs'] and st['objs'][0][1] != 'E0':
@@ -580,7 +587,16 @@ def check(scenario, w, st, res, ids):
         elif r is not None:
             res.probes['connect-from-another-thread-during-handling'] = 1
             idx = st['racer_conns'] - 1
-            if idx < 1 or idx >= len(apps) or not apps[idx].reached_play:
+            fd = st.get('final_disconnect')
+            if scenario['final'] == 'disconnect-slow' and (
+                    fd is None or fd.ret is None or fd.ret > r.inv):
+                # the application's own final handler calls disconnect():
+                # unless that call was over before the other thread's
+                # connect() began, it may end that thread's session - the
+                # application's doing, not the dying thread's
+                res.probes['racer-session-ended-by-final-handler'] = 1
+            elif idx < 1 or idx >= len(apps) or \
+                    not apps[idx].reached_play:
                 V.append(('C14/concurrent-connect-unusable',
                           {'conn': idx, 'conns': len(apps)}))
     elif not reconnected:
